@@ -45,11 +45,9 @@ V("C06-discard-first", "C06", "default mark cleared before __setval__ (which can
                 field.__setval__(self, value)
             except ValidationError:""")
 V("C06-store-before-load", "C06", "new sub-config stored before load_tree(value) can reject the dict", CORE,
-  """            cfg._key = key
-            cfg.load_tree(value)  # load_tree will raise a ValidationError on error
+  """            cfg.load_tree(value)  # load_tree will raise a ValidationError on error
             value = cfg""",
-  """            cfg._key = key
-            self._data[key] = cfg
+  """            self._data[key] = cfg
             cfg.load_tree(value)  # load_tree will raise a ValidationError on error
             value = cfg""")
 V("C06-append-then-validate", "C06", "ListProxy.append writes, then validates", LIST,
